@@ -200,6 +200,27 @@ void h_decode_ibwt(void)
   if (n == IBWT_N && !rnd) V_CANARY("ordinary path");
 }
 
+
+/* C06  Derandomisation of legacy randomised blocks (section of decode(), extracted verbatim): the toggled positions are those of the bzip2
+   format -- the first at byte 617 (= first table entry - 2), each next one a table entry further, the 512-entry table used cyclically.
+   Everything here is concrete (a constant table walk); the block stand-in covers the first DR_N positions, which includes the first
+   wrap-around of the table at byte 136578. */
+#define DR_N 138000u
+void h_derandomise(void)
+{
+  struct decoder_state dso, *ds = &dso; static uint8_t tt[DR_N]; uint32_t i, j;
+  dso.block_size = DR_N;
+#include "src/extract/derandomise.inc"
+  /* reference walk written from the format: cyclic index, gaps from the table.  The section toggles one strictly increasing position per
+     iteration, so "every reference position is toggled" + "same number of steps, same final index and position" means the sets are equal. */
+  uint32_t pos = rand_table[0] - 2u, n = 0; unsigned toggles = 0; int ok = 1;
+  while (pos < DR_N) { if (tt[pos] != 1) ok = 0; toggles++; n = (n + 1) % 512u; pos += rand_table[n]; }
+  V_ASSERT(ok, "derandomisation: every position prescribed by the format is toggled (first at 617, then one table entry apart, the 512 entries used cyclically)");
+  V_ASSERT(i == n && j == pos, "derandomisation: the walk ends at the same table index and block position as the reference (no extra or missing toggle)");
+  V_ASSERT(toggles > 256, "the stand-in block is long enough to pass entry 256 of the table");
+  V_CANARY("derandomise");
+}
+
 #ifdef VERIF_REPLAY
 int main(void) { HARNESS(); puts("REPLAY-PASS"); return 0; }
 #endif
